@@ -39,6 +39,24 @@ _EFFECTS_CACHE: Dict[int, Effects] = {}
 
 
 
+def _demorgan_quantifiers(e: ast.AST) -> ast.AST:
+    """`not any(not P for ...)` is `all(P for ...)`; `not all(not P for ...)` is `any(P for ...)`."""
+    import copy as _copy
+
+    class T(ast.NodeTransformer):
+        def visit_UnaryOp(self, node):
+            self.generic_visit(node)
+            if isinstance(node.op, ast.Not) and isinstance(node.operand, ast.Call) and isinstance(node.operand.func, ast.Name) and node.operand.func.id in ('any', 'all') \
+                    and len(node.operand.args) == 1 and isinstance(node.operand.args[0], (ast.GeneratorExp, ast.ListComp)):
+                g = node.operand.args[0]
+                if isinstance(g.elt, ast.UnaryOp) and isinstance(g.elt.op, ast.Not):
+                    other = 'all' if node.operand.func.id == 'any' else 'any'
+                    return ast.Call(func=ast.Name(id=other, ctx=ast.Load()), args=[type(g)(elt=g.elt.operand, generators=g.generators)], keywords=[])
+            return node
+
+    return ast.fix_missing_locations(T().visit(_copy.deepcopy(e)))
+
+
 def is_check_read(sh, v) -> bool:
     """Is the expression `v` a read of the check variables' current values?  By role: the call of a helper (nested in the
     solver, module-level, or a method) whose body goes over `<model>.check`, or such an expression written out."""
@@ -371,10 +389,11 @@ class SolverShape:
         for n in self.tests():
             if not self.in_loop(n):
                 continue
-            if 'tol' not in {x.id for x in ast.walk(n.ast) if isinstance(x, ast.Name)}:
+            test_ = self.read_helpers(n.ast)
+            if 'tol' not in {x.id for x in ast.walk(test_) if isinstance(x, ast.Name)}:
                 continue
             try:
-                test_ = self.read_helpers(n.ast)
+                test_ = _demorgan_quantifiers(test_)
                 r = convergence_test(test_)
                 lab = 'T'
                 if r[0] != 'all':
@@ -547,6 +566,40 @@ def _copy_src(v: ast.AST) -> Optional[str]:
     return None
 
 
+def saved_src(sh, nid: int, v: ast.AST) -> Optional[str]:
+    """The name whose value the assignment `<x> = v` at node `nid` saves: a copy (`y.copy()`, `copy.deepcopy(y)`, ...) - or
+    just `y` itself when that is as good as a copy: `y` is afterwards only ever *rebound* (to a fresh read of the check
+    values), and neither name is changed in place before that rebinding on any path from here."""
+    c = _copy_src(v)
+    if c is not None:
+        return c
+    if not isinstance(v, ast.Name):
+        return None
+    src = v.id
+    node = sh.cfg.nodes[nid]
+    a = node.ast
+    if not (isinstance(a, ast.Assign) and len(a.targets) == 1 and isinstance(a.targets[0], ast.Name)):
+        return None
+    alias = a.targets[0].id
+    rebinds = [m.id for m in sh.cfg.nodes if m.kind == 'stmt' and isinstance(m.ast, ast.Assign) and len(m.ast.targets) == 1 and isinstance(m.ast.targets[0], ast.Name)
+               and m.ast.targets[0].id == src and m.id != nid]
+    if not rebinds or not all(is_check_read(sh, sh.cfg.nodes[r].ast.value) for r in rebinds if sh.in_loop(sh.cfg.nodes[r])):
+        return None
+    reach = sh.cfg.reachable_from(nid, avoid=rebinds)
+    for m in sh.cfg.nodes:
+        if m.id not in reach or m.ast is None or m.id == nid:
+            continue
+        for x in ast.walk(m.ast):
+            if isinstance(x, (ast.Subscript, ast.Attribute)) and isinstance(x.ctx, (ast.Store, ast.Del)) and isinstance(x.value, ast.Name) and x.value.id in (src, alias):
+                return None
+            if isinstance(x, ast.AugAssign) and isinstance(x.target, ast.Name) and x.target.id in (src, alias):
+                return None
+            if isinstance(x, ast.Call) and isinstance(x.func, ast.Attribute) and isinstance(x.func.value, ast.Name) and x.func.value.id in (src, alias) \
+                    and x.func.attr in ('update', 'clear', 'pop', 'fill', 'sort', 'put', 'setdefault', 'append', 'extend', 'itemset', 'resize'):
+                return None
+    return src
+
+
 def _base_name(x: ast.AST) -> Optional[str]:
     if isinstance(x, ast.Name):
         return x.id
@@ -635,11 +688,25 @@ def check_convergence(R, sh: SolverShape) -> None:
     from fsa.match import abs_arg
 
     try:
-        conv, (quant, op, operand, tol, has_abs) = sh.convergence_node()
+        conv, ct_ = sh.convergence_node()
+        (quant, op, operand, tol, has_abs) = ct_
     except Wrong as e:
         R.violation(sh.q, 'convergence:wrong-shape', str(e), where=sh.fi.where)
         return
     key = 'convergence'
+    if getattr(ct_, 'nan_permissive', False):
+        # the predicate is written through a negation: fine for numbers, but a NaN movement passes it - unless NaNs
+        # cannot reach the test (both the current and the previous values are tested for non-finite values first)
+        guarded = False
+        try:
+            nf = NFView(sh)
+            guarded = all(any(t.id in sh.dom[conv.id] for t in nf.tests(w)) for w in ('NF__cur', 'NF__prev'))
+        except (AnchorMissing, Unsupported, Unknown):
+            guarded = False
+        R.check(guarded, sh.q, key + ':nan-counts-as-settled', 'a movement that is NaN never counts as converged',
+                f'`{text(conv.ast)[:70]}` states the convergence test through a negation (no value moved by tol or more): NaN compares False with `>=`/`>` as well as with `<`, '
+                f'so a check variable whose movement is NaN counts as settled and the period is declared solved; expected all(|movement| < tol), which is False for NaN',
+                where=sh.where(conv))
     # the check values are re-read on every pass (otherwise the saved copy goes stale)
     try:
         cur_name, _prev = value_roles(sh)
@@ -744,8 +811,8 @@ def check_convergence(R, sh: SolverShape) -> None:
                     roles.add('current' if sh.n_eval.id in sh.dom[s] else 'stale')
                 else:
                     roles.add('initial')
-            elif _copy_src(v) is not None:
-                roles.add(f'copy:{_copy_src(v)}')
+            elif saved_src(sh, s, v) is not None:
+                roles.add(f'copy:{saved_src(sh, s, v)}')
             else:
                 roles.add('other')
         return ','.join(sorted(roles))
@@ -790,7 +857,7 @@ def value_roles(sh: SolverShape) -> Tuple[str, str]:
             continue
         if not sh.in_loop(n):
             continue
-        if _copy_src(a.value) == cur and n.id in sh.dom[sh.n_eval.id]:
+        if saved_src(sh, n.id, a.value) == cur and n.id in sh.dom[sh.n_eval.id]:
             prev = a.targets[0].id
     if prev is None:
         raise AnchorMissing(f'{sh.q}: no copy of `{cur}` saved before the evaluation call')
